@@ -180,6 +180,15 @@ var boxAssumptions = []string{
 
 func init() {
 	register("C10", &CheckSpec{Level: "model_checking", Assumptions: boxAssumptions, Parts: []*PartSpec{boxPart("routing", "c10", 16)}})
+	// CONF is not a property: it binds the environment and runtime models to the real libraries.
+	register("CONF", &CheckSpec{Level: "model_checking", Assumptions: []string{"conformance of the verification runtime and environment models with native Go / quic-go / gorilla-websocket; not a property check"}, Parts: []*PartSpec{
+		{Name: "go-native", Harness: "confgo", Instrument: false, Shards: 1, Args: "mode=native", Timeout: 10 * time.Minute},
+		{Name: "go-model", Harness: "confgo", Instrument: true, Shards: 1, GoMaxProcs: 1, Args: "mode=model", Timeout: 20 * time.Minute},
+		{Name: "quic-native", Harness: "confquic", Instrument: false, Shards: 1, Args: "mode=native", Timeout: 10 * time.Minute},
+		{Name: "ws-native", Harness: "confws", Instrument: false, Shards: 1, Args: "mode=native", Timeout: 10 * time.Minute},
+		{Name: "ws-model", Harness: "confws", Instrument: true, ImportMap: wsMap, HTTPSeams: true, Shards: 1, GoMaxProcs: 1, Args: "mode=model", Timeout: 20 * time.Minute},
+		{Name: "quic-model", Harness: "confquic", Instrument: true, ImportMap: quicMap, Shards: 1, GoMaxProcs: 1, Args: "mode=model", Timeout: 20 * time.Minute},
+	}})
 	register("C16", &CheckSpec{Level: "exploration", Assumptions: boxAssumptions, Parts: []*PartSpec{boxPart("configurations", "c16", 16)}})
 	c14 := checks["C14"]
 	c14.Parts = append(c14.Parts, boxPart("server", "c14", 16))
